@@ -64,6 +64,61 @@ def make_family() -> Any:
     return mk
 
 
+def make_unnamed_switch() -> Any:
+    """A node with an UNNAMED SwitchCase parameter (synthetic id = random uuid) consumed by two nodes at different
+    depths; every traversal / declaration order must yield exactly one synthetic switch node feeding it."""
+    def mk() -> Any:
+        from ml_pipeline_engine.dag_builders.annotation import marks as M
+        from ml_pipeline_engine.dag_builders.annotation.builder import build_dag
+        from ..fam_nodes import CLASSES
+
+        def h(sym: Any) -> Tuple[str, Dict[str, Any]]:
+            n2_src = sym.choice("n2_src", 2)
+            case_order = sym.choice("case_order", 2)
+            mid_src = sym.choice("mid_src", 2)      # N4 = In(N3) (deeper consumer of N3) or In(N2)
+            out_order = sym.choice("out_param_order", 2)
+            label = None
+            with untraced():
+                F0, F1, F2, F3, F4 = CLASSES
+                import typing as t
+                ad = {"additional_data": t.Optional[t.Any]}
+                F0.process.__annotations__ = dict(ad)
+                F1.process.__annotations__ = dict({"a": M.Input(F0)}, **ad)
+                F2.process.__annotations__ = dict({"a": M.Input([F0, F1][n2_src])}, **ad)
+                cases = [("l1", F1), ("l2", F2)]
+                if case_order:
+                    cases.reverse()
+                F3.process.__annotations__ = dict({"v": M.SwitchCase(switch=F0, cases=cases)}, **ad)  # name=None
+                def _mid_process(self: Any, **kwargs: Any) -> Any:
+                    return 0
+
+                mid = type("Mid", (F1.__mro__[1],), {"process": _mid_process, "name": "mid"})
+                mid.process.__annotations__ = dict({"a": M.Input([F3, F2][mid_src])}, **ad)
+                marks = [("x", M.Input(F3)), ("y", M.Input(mid))]
+                if out_order:
+                    marks.reverse()
+                F4.process.__annotations__ = dict(dict(marks), **ad)
+                dag = build_dag(input_node=F0, output_node=F4)
+                g = dag.graph
+                switches = [n for n in g.nodes if g.nodes[n].get("is_switch")]
+                if len(switches) != 1:
+                    label = "synthetic_switch_nodes:%d_for_one_switch_parameter" % len(switches)
+                else:
+                    into = [(u, g.edges[u, "processor__f3"].get("kwarg_name")) for u in g.predecessors("processor__f3")]
+                    deliver = [k for _, k in into if k is not None]
+                    if deliver != ["v"]:
+                        label = "switch_parameter_delivery:%s" % deliver
+                    elif sorted(g.predecessors(switches[0])) != ["processor__f0", "processor__f1", "processor__f2"]:
+                        label = "switch_node_inputs:%s" % sorted(g.predecessors(switches[0]))
+            info = {"digest": [label], "goals": ["mid_src:%d" % mid_src, "order:%d" % out_order],
+                    "summary": {"n2_src": n2_src, "mid_src": mid_src, "out_param_order": out_order}}
+            return (label or "ok"), info
+
+        return h
+
+    return mk
+
+
 FUN = ["ml_pipeline_engine/dag_builders/annotation/builder.py::AnnotationDAGBuilder (all methods), build_dag",
        "ml_pipeline_engine/node/node.py::get_node_id, generate_node_id, get_callable_run_method",
        "ml_pipeline_engine/dag/dag.py::DAG"]
@@ -78,6 +133,13 @@ register(Job("C15", "family_n5", make_family(), tier="quick", budget_s=600,
                   "bounds": "5 node classes, <= 2 parameters on the output node, nodes inside one mark pairwise distinct "
                             "(well-formedness), one destination has one start node; ~3600 programs, all case-split by z3",
                   "assumptions": ["build_dag runs natively on the concrete declarations of each case (networkx cannot be traced)"]}))
+
+
+register(Job("C15", "unnamed_switch_two_depths", make_unnamed_switch(), tier="quick", budget_s=200,
+             goals=("mid_src:0", "mid_src:1", "order:0", "order:1"),
+             doc={"template": "N3 has an unnamed SwitchCase parameter; N3 is consumed by the output node and by a middle node",
+                  "symbolic": ["source of N2", "case order", "what the middle node consumes", "parameter order of the output node"],
+                  "functions": FUN, "bounds": "16 programs"}))
 
 
 # ------------------------------------------------------------------ naming (symbolic strings)
